@@ -126,32 +126,61 @@ def run(ctx, ck):
 
     g = m.func(NF)
     gfl = ctx.flow(g)
-    # the grid: what feeds self.near_field_coord
+    # the grid: what feeds self.near_field_coord (possibly built by a private helper)
     asg = assigns_to_attr(g, 'self.near_field_coord')
     if len(asg) != 1:
         raise AnalysisError('compute_near_field assigns self.near_field_coord %d times' % len(asg))
-    roots_nodes = set()
-    # range constructions that flow into near_field_coord: all in the function before the assignment
     from ..model import enclosing_stmt
+    from ..rules import self_closure
+    builders = [g]
+    for c in ast.walk(asg[0].value):
+        if isinstance(c, ast.Call) and isinstance(c.func, ast.Attribute) and isinstance(c.func.value, ast.Name) \
+           and c.func.value.id == 'self':
+            h = m.resolve_method('Mininec', c.func.attr)
+            if h is not None and h not in builders:
+                builders.append(h)
+    for nm in [x.id for x in ast.walk(asg[0].value) if isinstance(x, ast.Name) and x.id in gfl.rd.names]:
+        for d in gfl.def_exprs(nm, gfl.node_id_of(asg[0])):
+            if d[0] in ('assign', 'unpack') and d[1] is not None:
+                for c in ast.walk(d[1]):
+                    if isinstance(c, ast.Call) and isinstance(c.func, ast.Attribute) and \
+                       isinstance(c.func.value, ast.Name) and c.func.value.id == 'self':
+                        h = m.resolve_method('Mininec', c.func.attr)
+                        if h is not None and h not in builders:
+                            builders.append(h)
+    n2 = 0
+    for b in builders:
+        bfl = ctx.flow(b)
 
-    def feeds_grid(c):
-        st = enclosing_stmt(c)
-        v = getattr(st, 'value', None)
-        if v is None:
-            return False
-        r_ = gfl.roots(v, gfl.node_id_of(st))
-        return ('attr', 'self.nf_param') in r_ or ('param', 'nvec') in r_
-    n2 = check_builder(ctx, ck, NF, ('n', 'nvec', 'nf_param'), within=feeds_grid)
+        def feeds_grid(c, bfl=bfl, b=b):
+            if b is not g:
+                return True
+            st = enclosing_stmt(c)
+            v = getattr(st, 'value', None)
+            if v is None:
+                return False
+            r_ = bfl.roots(v, bfl.node_id_of(st))
+            return ('attr', 'self.nf_param') in r_ or ('param', 'nvec') in r_
+        n2 += check_builder(ctx, ck, b.qual, ('n', 'nvec', 'nf_param', 'count'), within=feeds_grid)
     ck.floor('range constructions feeding the near-field grid', n2, 1)
     r = gfl.roots(asg[0].value, gfl.node_id_of(asg[0]))
     need = [('param', 'start'), ('param', 'inc'), ('param', 'nvec')]
-    if ('attr', 'self.nf_param') in r:
-        for a in assigns_to_attr(g, 'self.nf_param'):
-            r = r | gfl.roots(a.value, gfl.node_id_of(a))
+    for _ in range(2):
+        for x in list(r):
+            if x[0] == 'attr' and x[1].startswith('self.') and x[1].count('.') == 1:
+                for a in assigns_to_attr(g, x[1]):
+                    r = r | gfl.roots(a.value, gfl.node_id_of(a))
+    from ..dataflow import expand_call_roots
+    r = expand_call_roots(ctx, g, r)
+    for x in list(r):
+        if x[0] == 'attr' and x[1].startswith('self.') and x[1].count('.') == 1:
+            for a in assigns_to_attr(g, x[1]):
+                r = r | gfl.roots(a.value, gfl.node_id_of(a))
     miss = [x for x in need if x not in r]
     ck.ob('R-GRID.affine', NF + '|grid-from-request', not miss, g.loc(asg[0]),
           'near_field_coord built from start, inc, nvec' if not miss else 'grid lacks roots %s' % miss)
-    mg = [c for c in ast.walk(asg[0].value) if isinstance(c, ast.Call) and (dotted(c.func) or '').endswith('meshgrid')]
+    mg = [c for b in builders for c in ast.walk(b.node) if isinstance(c, ast.Call) and
+          (dotted(c.func) or '').endswith('meshgrid') and (b is not g or c.lineno <= asg[0].end_lineno)]
     ck.ob('R-GRID.affine', NF + '|meshgrid', len(mg) == 1, g.loc(asg[0]), 'full Cartesian product of the three axes')
 
     # ---------------------------------------------------------------- D2
@@ -175,19 +204,35 @@ def run(ctx, ck):
             mn, mx = loop_reaches_on_all_paths(gfl, l, is_app)
             ck.ob('R-EXH.grid-to-table', '%s|%s' % (NF, attr), (mn, mx) == (1, 1), g.loc(l),
                   '%s.append per grid point: min %s max %s' % (attr, mn, mx))
+    from ..rules import loops_in_closure
     for q, fld in (('mininec.Mininec.near_field_e_as_mininec', 'self.e_field'),
                    ('mininec.Mininec.near_field_h_as_mininec', 'self.h_field')):
         w = m.func(q)
-        wfl = ctx.flow(w)
-        ls = [l for l in loops_in(w.node) if isinstance(l, ast.For) and isinstance(parent(l), ast.FunctionDef)]
-        ok = len(ls) == 1 and norm(ls[0].iter) == 'zip(%s, self.near_field_iter())' % fld
+        # the table loop: zip(<field>, self.near_field_iter()) in the writer or in a shared helper
+        cand = loops_in_closure(ctx, w, lambda l: isinstance(l, ast.For) and isinstance(l.iter, ast.Call)
+                                and norm(l.iter.func) == 'zip' and len(l.iter.args) == 2
+                                and norm(l.iter.args[1]) == 'self.near_field_iter()')
+        ok = len(cand) == 1
         cnt = None
         if ok:
+            g_, l_ = cand[0]
+            gfl_ = ctx.flow(g_)
+            first = norm(l_.iter.args[0])
+            if g_ is w:
+                ok = first == fld
+            else:
+                # helper: the field list is a parameter, the writer passes its own field
+                ok = first in g_.all_params and any(
+                    isinstance(c, ast.Call) and isinstance(c.func, ast.Attribute) and c.func.attr == g_.name
+                    and any(norm(a) == fld for a in c.args + [k.value for k in c.keywords])
+                    for c in walk_no_nested(w.node))
+
             def is_point_line(n):
-                s = n.stmt
-                return n.kind == 'stmt' and isinstance(s, ast.Expr) and 'FIELD POINT' in norm(s)
-            cnt = loop_reaches_on_all_paths(wfl, ls[0], is_point_line)
-            ok = cnt == (1, 1)
+                s_ = n.stmt
+                return n.kind == 'stmt' and isinstance(s_, ast.Expr) and 'FIELD POINT' in norm(
+                    gfl_.inline(s_.value, n.id) if isinstance(s_.value, ast.Call) else s_.value)
+            cnt = loop_reaches_on_all_paths(gfl_, l_, is_point_line)
+            ok = ok and cnt == (1, 1)
         ck.ob('R-EXH.grid-to-table', q, ok, w.loc(), 'one FIELD POINT block per (field, grid point): %s' % (cnt,))
     far = m.func('mininec.Mininec.compute_far_field')
     mg = [s for s in walk_no_nested(far.node) if isinstance(s, ast.Assign) and isinstance(s.value, ast.Call)
